@@ -4,6 +4,11 @@ package main
 // non-negativity monitors (C01, C02) computed from the node's own exports.
 
 import (
+	"sync"
+	"strconv"
+	"regexp"
+	"path/filepath"
+	"os"
 	"fmt"
 
 	"github.com/MinterTeam/minter-go-node/coreV2/state"
@@ -137,6 +142,8 @@ type HistResult struct {
 	C02       []MonitorFailure
 	C06       []MonitorFailure
 	C06Agree  int
+	C05       []MonitorFailure
+	C05Checked int
 	Exports   []*types.AppState // only when keepExports
 }
 
@@ -230,6 +237,7 @@ type genOpts struct {
 	KeepExports bool
 	TimeWalk    bool
 	CheckDeliver bool // run every transaction in check mode on the in-flight state right before delivering it (C06)
+	CandAuth     bool // C05: candidate settings change only by the owner (on/off also by the control address)
 }
 
 func genHistory(seed uint64, spec *GenesisSpec, g *genOpts) (*History, *HistResult, *World) {
@@ -289,7 +297,7 @@ func genHistory(seed uint64, spec *GenesisSpec, g *genOpts) (*History, *HistResu
 			opts.PreTx = func(i int, raw []byte) {
 				chkOK = n.guard("CheckTx", func() {
 					cs := state.NewCheckState(n.App.VerifStateDeliver())
-					chkCode = transaction.NewExecutorV3(transaction.GetDataV3).RunTx(cs, raw, nil, hh, newSyncMap(), 0, false).Code
+					chkCode = transaction.NewExecutorV3(transaction.GetDataV3).RunTx(cs, raw, nil, checkTxHeight(n), newSyncMap(), 0, false).Code
 				})
 			}
 			opts.PostTx = func(i int, raw []byte, tr TxResult) {
@@ -305,6 +313,49 @@ func genHistory(seed uint64, spec *GenesisSpec, g *genOpts) (*History, *HistResu
 					res.C06 = append(res.C06, MonitorFailure{What: fmt.Sprintf("C06: %s transaction at height %d: check mode on the same state returned code %d, DeliverTx %d (%s) raw=%x", kind, hh, chkCode, tr.Code, tr.Log, raw), Key: "c06-check-deliver"})
 				} else {
 					res.C06Agree++
+				}
+			}
+		}
+		if g.CandAuth {
+			var owner, control types.Address
+			var known bool
+			var pk types.Pubkey
+			opts.PreTx = func(i int, raw []byte) {
+				known = false
+				if i >= len(gens) {
+					return
+				}
+				switch d := gens[i].Data.(type) {
+				case transaction.EditCandidateData:
+					pk = d.PubKey
+				case transaction.EditCandidateCommission:
+					pk = d.PubKey
+				case transaction.SetCandidateOnData:
+					pk = d.PubKey
+				case transaction.SetCandidateOffData:
+					pk = d.PubKey
+				default:
+					return
+				}
+				if c := n.App.VerifStateDeliver().Candidates.GetCandidate(pk); c != nil {
+					owner, control, known = c.OwnerAddress, c.ControlAddress, true
+				}
+			}
+			opts.PostTx = func(i int, raw []byte, tr TxResult) {
+				if !known || tr.Code != 0 || i >= len(gens) {
+					return
+				}
+				res.C05Checked++
+				sender := gens[i].Sender.Addr
+				switch gens[i].Data.(type) {
+				case transaction.EditCandidateData, transaction.EditCandidateCommission:
+					if sender != owner {
+						res.C05 = append(res.C05, MonitorFailure{What: fmt.Sprintf("C05: %s of candidate %s at height %d was accepted from %s, the owner is %s (control address %s) raw=%x", gens[i].Kind, pk.String(), n.Height+1, sender.String(), owner.String(), control.String(), raw), Key: "c05-candidate-settings-not-by-owner"})
+					}
+				default:
+					if sender != owner && sender != control {
+						res.C05 = append(res.C05, MonitorFailure{What: fmt.Sprintf("C05: %s of candidate %s at height %d was accepted from %s, owner %s, control address %s raw=%x", gens[i].Kind, pk.String(), n.Height+1, sender.String(), owner.String(), control.String(), raw), Key: "c05-candidate-switch-unauthorized"})
+					}
 				}
 			}
 		}
@@ -373,4 +424,34 @@ func genHistory(seed uint64, spec *GenesisSpec, g *genOpts) (*History, *HistResu
 		}
 	}
 	return h, res, w
+}
+
+
+// checkTxHeight: the block height Blockchain.CheckTx hands to the executor for a node at height n.Height,
+// read off the source of the tree the harness was built against (blockchain.Height()+k in the RunTx call of
+// CheckTx; DeliverTx is the real one).  The real CheckTx needs a Tendermint node for MinGasPrice, so the
+// check-mode runs call RunTx themselves; this keeps their height argument tied to the code.
+var checkTxOffsetOnce sync.Once
+var checkTxOffsetVal int64 = 1
+
+func checkTxHeight(n *Node) uint64 {
+	checkTxOffsetOnce.Do(func() {
+		src, err := os.ReadFile(filepath.Join(repoDir(), "coreV2/minter/blockchain.go"))
+		if err != nil {
+			return
+		}
+		m := regexp.MustCompile(`func \(blockchain \*Blockchain\) CheckTx[^{]*\{[\s\S]*?RunTx\([^,]+,[^,]+,[^,]+,\s*blockchain\.Height\(\)\s*(([+-])\s*(\d+))?\s*,`).FindSubmatch(src)
+		if m == nil {
+			return // the translator (xlate entry.go) fails closed on an unknown shape: the proof gate reports it
+		}
+		checkTxOffsetVal = 0
+		if len(m[3]) > 0 {
+			v, _ := strconv.ParseInt(string(m[3]), 10, 64)
+			if string(m[2]) == "-" {
+				v = -v
+			}
+			checkTxOffsetVal = v
+		}
+	})
+	return uint64(n.Height + checkTxOffsetVal)
 }
